@@ -191,6 +191,14 @@ Proof. exact src_remove_light_is_restrict. Qed.
 Theorem C10_source_remove_intersection_is_restrict : forall i n, WF n ->
   run_remove src_remove_inter (fun m => m) i n = restrict all all all (neq i) n.
 Proof. exact src_remove_inter_is_restrict. Qed.
+(* create_from_lanelet_list as parsed (deep copies of the listed lanelets into a new network, the cleanup methods in
+   the order of the source), run with the parsed cleanup methods, is from_list - hence restrict to the listed lanelets *)
+Theorem C10_from_list_is_source : forall ls n,
+  run_from_list src_from_list src_clean true ls n = from_list ls n.
+Proof. exact src_from_list_is_model. Qed.
+Theorem C10_source_from_list_is_restrict : forall ls n, WF n ->
+  run_from_list src_from_list src_clean true ls n = restrict (isin ls) none none none n.
+Proof. exact src_from_list_is_restrict. Qed.
 (* non-vacuity: the parsed programs, run on a three-lanelet network, remove lanelet 2 and every reference to it *)
 Example C10_source_nonvacuous :
   let l i p s a := mkL i p s a (match a with Some _ => Some true | None => None end) None None [] [] None [] 0 in
@@ -237,4 +245,6 @@ Print Assumptions C10_source_remove_lanelet_is_restrict.
 Print Assumptions C10_source_remove_sign_is_restrict.
 Print Assumptions C10_source_remove_light_is_restrict.
 Print Assumptions C10_source_remove_intersection_is_restrict.
+Print Assumptions C10_from_list_is_source.
+Print Assumptions C10_source_from_list_is_restrict.
 Print Assumptions C10_source_nonvacuous.
